@@ -34,6 +34,10 @@ Cases:
   | ["isub",n] int subclass | ["cx",re,im] complex | ["D",[[k,v]..]] OrderedDict | ["DD",[[k,v]..]] defaultdict(int) | ["AS",dtype,shape,[v..]] ndarray subclass.
   {"k":"md","rows":V,"names":[..],"limit":n?,"maxw":n?}   DataFrame(rows, names).markdown(limit, max_column_width): the column widths the plain-Python
         renderer used (read off its separator line) and, beside it, calculate_data_width on the same head columns
+  Round 6: sess operations {"new":"copy","of":i} (copy.deepcopy(object i)) and {"new":"head","of":i,"n":n} (frame i .head(n)) create derived objects.
+  Round 6: an "md" case may carry "via":"ascii" - the widths are then those of orso.display.ascii_table(frame, limit, display_width=False, max_column_width,
+  colorize=False, top_and_tail=False, show_types=False) (read off its top border) and what it handed to calculate_data_width is recorded ("fed"); a collect
+  OP may carry "kw": true (columns=..., limit=... by keyword); schemas may repeat a column name.
   Round 5: every argument object the harness hands over (request lists, schema lists, appended entries, dicts, field tuples, rows of pydef) is
   snapshotted and compared afterwards ("args_changed"); a collect / getitem OP may carry "req": id - all OPs of a case with the same id pass the
   SAME Python list object (same cols by construction), also across frames of a session.
@@ -66,7 +70,9 @@ LEVEL_TEXT = ("Machine-checked Coq theorems over an executable model of collect_
               "is modelled as written (per-request output lists filled row by row, Python subscription with wrap-around, KeyError / TypeError paths) and proved to be the "
               "column-major definition with one list per requested column, equal to the compiled collector's model on rectangular rows with in-range indexes. The markdown "
               "renderer's plain-Python column width (max over the non-null rendered lengths with 4 appended, head rows, header, cap) is modelled as written and proved equal "
-              "to calculate_data_width's running maximum. The model is tied "
+              "to calculate_data_width's running maximum. The subscript entry point df[...] is proved to be collect(..., limit=None) (a position outside 0..width-1, negative "
+              "ones included, never yields a column through it), and deep copies / head(n) frames are objects of the session heap that start equal to / as the first n rows of "
+              "their source and are independent afterwards (locality theorem). The model is tied "
               "to the shipped compiled .so by running the real helpers (and the callers DataFrame.collect / the display width call) in sacrificial processes on the "
               "exhaustive small scope and on random larger inputs and evaluating the model on the same inputs inside Coq; a literal property oracle and the observed "
               "exit status of every child supply replayable failing inputs.")
@@ -94,7 +100,8 @@ RULE = ("collect_cython: exhaustive over rectangular row lists up to 3x3 (distin
         "non-position / unhashable requested columns on tuple and dictionary rows, random dict / ragged / None rows), DataFrame.collect with column entries that are not "
         "an int and not a name (floats, numpy scalars, Decimal, Fraction, bytes, None, bool, int subclass; enumerated), frames without columns, dict / tuple / ndarray subclass "
         "instances, DataFrame.markdown column widths beside calculate_data_width (every ordered pair of None / falsy / floor-of-four / array cells under a short and a long "
-        "header, limits x caps; enumerated), request-list objects reused across calls and across frames, every argument object snapshotted and compared after the case, "
+        "header, limits x caps; enumerated), the same frames through ascii_table (recording what it hands to calculate_data_width), schemas that repeat a column name, every "
+        "request through df[...] / collect(...) / collect(columns=..., limit=None), deep copies and head(n) frames appended to and probed beside their source, request-list objects reused across calls and across frames, every argument object snapshotted and compared after the case, "
         "arbitrary dictionaries and field tuples (colliding keys 1/1.0/True, unhashable fields), "
         "object/str/numeric/2-D arrays for calculate_data_width (incl. through DataFrame.collect as display.py calls it), and malformed arguments; a case is non-trivial "
         "when the helper returned at least one cell / field / a width above the floor, or raised for an out-of-range index; distinct by canonical JSON")
@@ -329,7 +336,7 @@ def _run_step(df, names, op, reqs=None):
             _watch("the column request %r passed to %s" % (_cols_arg(cols), o), arg)
             if o == "collect":
                 kw = {"limit": build(op["limit"])} if "limit" in op else {}
-                r = df.collect(arg, **kw)
+                r = df.collect(columns=arg, **kw) if op.get("kw") else df.collect(arg, **kw)
             else:
                 r = df[arg]
             _LEAK.append(r)
@@ -468,6 +475,26 @@ def _run_case_inner(case):
             lim = case.get("limit", 5)
             t = df.slice(length=lim) if lim > 0 else df           # the head the renderers size their columns on
             native = [int(compiled.calculate_data_width(t.collect(i))) for i in range(len(names))]   # display.py:347, the compiled twin
+            if case.get("via") == "ascii":
+                import orso.display as display
+
+                real, fed = display.calculate_data_width, []
+
+                def recorder(values):
+                    fed.append([canon(x) for x in values])
+                    return real(values)
+
+                display.calculate_data_width = recorder
+                try:
+                    text = display.ascii_table(df, limit=lim, display_width=False, max_column_width=case.get("maxw", 30), colorize=False,
+                                               top_and_tail=False, show_types=False)
+                finally:
+                    display.calculate_data_width = real
+                top = text.split("\n")[0]
+                segs = top.strip("\u250c\u2510").split("\u252c")[1:]
+                if not top.startswith("\u250c") or any(set(sg) - {"\u2500"} for sg in segs):
+                    return {"ok": {"widths": None, "native": native, "fed": fed, "text": text[:300]}}
+                return {"ok": {"widths": [len(sg) - 2 for sg in segs] if names else [], "native": native, "fed": fed}}
             text = df.markdown(**kw)
             seps = [ln for ln in text.split("\n") if ln.startswith("|-") and set(ln) <= {"|", "-"}]
             if not seps:
@@ -515,6 +542,21 @@ def _run_case_inner(case):
                         df = DataFrame(rows=src, schema=_watch("the schema list", list(op["names"])))
                         _LEAK.append((rows, src, df))
                         objs.append(("frame", df, list(op["names"])))
+                        steps.append({"none": True})
+                    except BaseException as e:
+                        objs.append(("broken", None, None))
+                        steps.append({"exc": type(e).__name__})
+                elif op.get("new") in ("copy", "head"):
+                    try:
+                        kind, src_obj, nm = objs[op["of"]]
+                        if op["new"] == "copy":
+                            import copy
+
+                            new_obj = copy.deepcopy(src_obj)
+                        else:
+                            new_obj = src_obj.head(op["n"])
+                        _LEAK.append(new_obj)
+                        objs.append((kind, new_obj, None if nm is None else list(nm)))
                         steps.append({"none": True})
                     except BaseException as e:
                         objs.append(("broken", None, None))
@@ -1006,6 +1048,11 @@ def oracle(case, obs):
         far = [c for c in _collect_view(case)[1] if not INT_MIN <= c <= INT_MAX]
         return ("a column index outside 0..width-1 must raise a Python exception however far outside it is: index %s cannot even be held by an int32 index vector, "
                 "yet DataFrame.collect returned an array of shape %s (the index was silently converted; the elements were not inspected)" % (far, obs["shape"]))
+    if "returned_without_raising" in obs and case["k"] in ("dfseq", "sess") and "step" in obs:
+        op = case["ops"][obs["step"]]
+        op = op.get("op", op) if case["k"] == "sess" else op
+        return ("call %d, %s: a position outside 0..width-1 (negative ones included) or a row too short for it must raise a Python exception through every entry "
+                "point, but the call returned an array of shape %s (it was not inspected: a read outside a row yields wild pointers)" % (obs["step"] + 1, _op_text(op), obs["shape"]))
     if "returned_without_raising" in obs:
         return ("a row the call serves is not a tuple wide enough for every requested index (not a tuple at all, or shorter than the first row): "
                 "a Python exception is required, but the helper returned an array of shape %s - it read outside the row object; the "
@@ -1145,7 +1192,7 @@ def _op_text(op):
         lim = ""
         if "limit" in op:
             lim = ", limit=%s" % ("None" if op["limit"][0] == "n" else repr(build(op["limit"])))
-        return "collect(%r%s)%s" % (_cols_arg(op["cols"]), lim, " [caller then overwrites the returned array in place]" if op.get("scribble") else "")
+        return "collect(%s%r%s)%s" % ("columns=" if op.get("kw") else "", _cols_arg(op["cols"]), lim, " [caller then overwrites the returned array in place]" if op.get("scribble") else "")
     if o == "getitem":
         return "df[%r]%s" % (_cols_arg(op["cols"]), " [caller then overwrites the returned array in place]" if op.get("scribble") else "")
     if o == "append":
@@ -1165,12 +1212,21 @@ def _oracle_md(case, obs):
         return None if "exc" in obs else None
     want = [min(max(len(n), d), maxw) for n, d in zip(names, dw)]
     if "exc" in obs:
-        return "DataFrame.markdown raised %s on a well-formed frame; column widths %s expected" % (obs["exc"], want)
+        return "%s raised %s on a well-formed frame; column widths %s expected" % ("ascii_table" if case.get("via") == "ascii" else "DataFrame.markdown", obs["exc"], want)
     got = obs["ok"]
     if got["native"] != dw:
         return "calculate_data_width on the head columns: expected %s, got %s" % (dw, got["native"])
     if got["widths"] is None:
         return "no separator line in the markdown output: %r" % got.get("text")
+    if case.get("via") == "ascii":
+        cols = [[canon(r[i]) for r in head] for i in range(len(names))]
+        if got.get("fed") != cols:
+            return ("ascii_table must hand calculate_data_width, column by column, the values rendered in that column (columns %s, names may repeat): "
+                    "expected %s, it was handed %s" % (names, cols, got.get("fed")))
+        if got["widths"] != want:
+            return ("ascii_table must size column i as min(max(len(name), calculate_data_width(column i of the %d rows shown)), %d): expected %s, got %s"
+                    % (len(head), maxw, want, got["widths"]))
+        return None
     if got["widths"] != want:
         return ("markdown must size column i as min(max(len(name), longest rendered non-null value of the %d rows shown, 4), %d) - what calculate_data_width gives (%s): "
                 "expected %s, got %s" % (len(head), maxw, dw, want, got["widths"]))
@@ -1308,6 +1364,10 @@ def _sess_text(ops, upto):
             out.append("#%d = Row.create_class(%r, tuples_only=%r)" % (sum(1 for q in ops[:j] if "new" in q), tuple(op["fields"]), bool(op["tuples_only"])))
         elif op.get("new") == "frame":
             out.append("#%d = DataFrame(rows=<%s of %d rows>, schema=%r)" % (sum(1 for q in ops[:j] if "new" in q), op["backing"], len(op["rows"][1]), list(op["names"])))
+        elif op.get("new") == "copy":
+            out.append("#%d = copy.deepcopy(#%d)" % (sum(1 for q in ops[:j] if "new" in q), op["of"]))
+        elif op.get("new") == "head":
+            out.append("#%d = #%d.head(%d)" % (sum(1 for q in ops[:j] if "new" in q), op["of"], op["n"]))
         elif "make" in op:
             out.append("#%d(%r)" % (op["on"], build(op["make"])))
         else:
@@ -1332,6 +1392,19 @@ def _oracle_sess(case, obs):
                 return "in one process: %s: creating the object raised %s" % ("; ".join(_sess_text(ops, i + 1)), st["exc"])
             if op["new"] == "class":
                 objs.append(("class", [str(f) for f in op["fields"]], bool(op["tuples_only"])))
+            elif op["new"] == "copy":      # an equal object that is independent from now on
+                import copy
+
+                kd, a0, b0 = objs[op["of"]]
+                a1 = copy.deepcopy(a0)
+                if kd == "frame":
+                    a1.label = "frame #%d (a deep copy of #%d)" % (len(objs), op["of"])
+                objs.append((kd, a1, b0))
+            elif op["new"] == "head":      # a new frame over the first n rows the source holds now; the source keeps its rows
+                src = objs[op["of"]][1]
+                fo = _FrameOracle("list", src.cur[: op["n"]], src.names, label="frame #%d (= #%d.head(%d))" % (len(objs), op["of"], op["n"]))
+                src.done.append("head(%d)" % op["n"])
+                objs.append(("frame", fo, None))
             else:
                 objs.append(("frame", _FrameOracle(op["backing"], op["rows"][1], op["names"], label="frame #%d" % len(objs)), None))
             continue
@@ -1625,6 +1698,12 @@ def _to_coq_sess(case, obs):
             kinds.append(("frame", list(op["names"])))
             cnames = "(%s : list Z)" % L.lst(L.Z(table.setdefault(canon(str(f)), len(table))) for f in op["names"])
             cops.append("(NewFrame %s %s %s)" % (_COQ_BACKING[op["backing"]], cnames, _coq_rows(op["rows"][1], table)))
+        elif op.get("new") == "copy":
+            kinds.append(kinds[op["of"]])
+            cops.append("(NewCopy %s)" % L.nat(op["of"]))
+        elif op.get("new") == "head":
+            kinds.append(kinds[op["of"]])
+            cops.append("(NewHead %s %s)" % (L.nat(op["of"]), L.nat(op["n"])))
         elif "make" in op:
             data = op["make"]
             if data[0] in ("d", "D", "DD"):
@@ -1744,6 +1823,10 @@ def classify(case, obs):
             lazy = lazy and op["op"] == "append"
         if "append" in ops:
             yield "has-append"
+        if len(set(case["names"])) < len(case["names"]):
+            yield "repeated-column-name"
+        if any(op["op"] == "getitem" and type(op["cols"]) is int and op["cols"] < 0 for op in case["ops"]):
+            yield "subscript-negative-position"
         rq = [op["req"] for op in case["ops"] if "req" in op]
         if len(set(rq)) < len(rq):
             yield "request-list-object-reused"
@@ -1752,6 +1835,9 @@ def classify(case, obs):
                 if "exc" in st:
                     yield "step-exc:" + st["exc"]
     elif k == "md":
+        yield "via:" + case.get("via", "markdown")
+        if len(set(case["names"])) < len(case["names"]):
+            yield "repeated-column-name"
         yield "columns=%d" % len(case["names"])
         if "limit" in case:
             yield "md-limit:" + ("<=0" if case["limit"] <= 0 else "pos")
@@ -1777,6 +1863,10 @@ def classify(case, obs):
     elif k == "sess":
         news = [op for op in case["ops"] if "new" in op]
         yield "objects=%d" % len(news)
+        for kd in ("copy", "head"):
+            if any(op["new"] == kd for op in news):
+                yield "derived-object:" + kd
+        news = [op for op in news if op["new"] in ("class", "frame")]
         keyset = [tuple(sorted(str(f) for f in (op.get("fields") or op.get("names")))) for op in news]
         if len(set(keyset)) < len(keyset):
             yield "objects-sharing-field-names"
@@ -1974,13 +2064,41 @@ def _exhaustive_md():
             yield {"k": "md", "rows": rows, "names": ["ok", "remark"], "limit": lim, "maxw": maxw}
     yield {"k": "md", "rows": ["l", []], "names": ["a", "bcdefg"]}
     yield {"k": "md", "rows": ["l", [["t", []], ["t", []]]], "names": []}
+    # schemas that repeat a name (SELECT a.id, b.id): every ordered pair of cells in two columns of one name, and three columns of one name
+    for x in _MD_VALUES:
+        for y in _MD_VALUES:
+            yield {"k": "md", "rows": ["l", [["t", [x, y]]]], "names": ["id", "id"]}
+    wide = ["s", "a considerably longer value"]
+    for perm in itertools.permutations([["n"], ["s", "0123456789"], wide]):
+        yield {"k": "md", "rows": ["l", [["t", list(perm)], ["t", [["n"], ["i", 1], ["b", False]]]]], "names": ["v", "v", "v"]}
+        yield {"k": "md", "rows": ["l", [["t", list(perm)], ["t", [["n"], ["i", 1], ["b", False]]]]], "names": ["key", "value", "key"], "limit": 1}
+
+
+def _exhaustive_entry_points():
+    """The same request through every entry point of the collector on ONE frame: df[req], collect(req), collect(columns=req, limit=None) - frames of 0..2 rows x
+    1..3 columns, req = every single position in -width-1..width, [k], [k, 0], (a name), ([name]) ."""
+    for r in (0, 1, 2):
+        for w in (1, 2, 3):
+            names = ["c%d" % i for i in range(w)]
+            reqs = []
+            for k in range(-w - 1, w + 1):
+                reqs += [k, [k], [k, 0]]
+            reqs += [names[-1], [names[-1]], [names[0], names[-1]]]
+            for req in reqs:
+                yield {"k": "dfseq", "backing": "list", "rows": _rect(r, w), "names": names,
+                       "ops": [{"op": "getitem", "cols": req}, {"op": "collect", "cols": req}, {"op": "collect", "cols": req, "limit": ["n"], "kw": True},
+                               {"op": "getitem", "cols": req}]}
 
 
 def _rand_md(rng):
     r, w = rng.choice([0, 1, 2, 3, 6, 12]), rng.choice([1, 2, 3, 4])
     names = [rng.choice(["a", "ok", "id", "name", "value", "a|b", "\u00e9t\u00e9", "a_rather_long_column_name_of_35_chars"]) + str(i) for i in range(w)]
     rows = [["t", [rng.choice(_MD_VALUES) if rng.random() < 0.6 else _rand_value(rng) for _ in range(w)]] for _ in range(r)]
+    if w > 1 and rng.random() < 0.3:
+        names[rng.randrange(1, w)] = names[0]     # a repeated column name
     case = {"k": "md", "rows": ["l", rows], "names": names}
+    if rng.random() < 0.5:
+        case["via"] = "ascii"
     if rng.random() < 0.6:
         case["limit"] = rng.choice([-1, 0, 1, 2, 5, r, r + 1])
     if rng.random() < 0.4:
@@ -2014,6 +2132,31 @@ def _sess_probe(i, new):
             {"on": i, "op": {"op": "rowcount"}}]
 
 
+def _exhaustive_derived():
+    """Objects derived from a frame: after nothing / a limited collect / an append, take copy.deepcopy(frame) or frame.head(n) (n = 0..rows+1, so the whole
+    frame too), then append to the derived frame and to the original and probe both - frames of 0..2 rows x (a, b) in a list / tuple / deque
+    (head also from a generator / iterator)."""
+    for backing in _BACKINGS:
+        for r in (0, 1, 2):
+            for pre in (None, {"op": "collect", "cols": ["b", "a"], "limit": ["i", 1]}, {"op": "append", "entry": ["t", [["i", 71], ["i", 72]]]}):
+                if pre is not None and pre["op"] == "append" and backing in ("tuple", "gen", "iter") and r > 0:
+                    continue   # refused on a lazy frame: nothing new to see
+                derived = [{"new": "head", "of": 0, "n": n} for n in range(0, r + 3)]
+                if backing in ("list", "tuple", "deque"):
+                    derived.append({"new": "copy", "of": 0})
+                for mk in derived:
+                    ops = [{"new": "frame", "backing": backing, "rows": _rect(r, 2), "names": ["a", "b"]}]
+                    if pre is not None:
+                        ops.append({"on": 0, "op": pre})
+                    ops += [mk,
+                            {"on": 1, "op": {"op": "append", "entry": ["t", [["i", 81], ["i", 82]]]}},
+                            {"on": 0, "op": {"op": "collect", "cols": ["a", "b"]}}, {"on": 0, "op": {"op": "rowcount"}},
+                            {"on": 0, "op": {"op": "append", "entry": ["d", [[["s", "b"], ["i", 92]], [["s", "a"], ["i", 91]]]]}},
+                            {"on": 1, "op": {"op": "getitem", "cols": ["a", "b"]}}, {"on": 1, "op": {"op": "rowcount"}},
+                            {"on": 0, "op": {"op": "getitem", "cols": "a"}}]
+                    yield {"k": "sess", "ops": ops}
+
+
 def _exhaustive_sess(tier):
     """Every sequence of 2..3 (thorough: 2..4) object creations from the palette {tuples-only class over (a, b), ordinary class
     over (a, b), ordinary class over (b, a), list-backed frame over (a, b), tuple-backed frame over (a, b), list-backed frame over (b, a)}, then the probe actions
@@ -2040,6 +2183,11 @@ def exhaustive(tier):
         for c in _exhaustive_pydef(tier):
             yield c
         for c in _exhaustive_md():
+            yield c
+            yield dict(c, via="ascii")    # the same frames through the ASCII renderer, which sizes its columns with the compiled helper
+        for c in _exhaustive_entry_points():
+            yield c
+        for c in _exhaustive_derived():
             yield c
         for c in _exhaustive_sess(tier):
             yield c
@@ -2071,6 +2219,11 @@ def exhaustive(tier):
     label += ("; the second width path: DataFrame.markdown on one-column frames with every ordered pair of cells from None / False / True / 0 / 0.0 / -0.0 / '' / 'abcd' / "
               "'abcde' / Decimal('0.000') / Decimal('0') / [] / 12345 / a NumPy array under a 2- and a 6-character header, and limits -1, 0, 1, 2, 5 x caps 3, 4, 5, 30, with "
               "calculate_data_width called on the same head columns")
+    label += ("; each of these frames also through ascii_table (recording what it hands to calculate_data_width); schemas that repeat a name: two columns 'id','id' with "
+              "every ordered pair of cells, three columns of one name in every order; entry points: df[req], collect(req), collect(columns=req, limit=None) on frames of "
+              "0..2 rows x 1..3 columns for every single position in -width-1..width, [k], [k, 0], names")
+    label += ("; derived objects: copy.deepcopy(frame) and frame.head(n) for n = 0..rows+2 after nothing / a limited collect / an append, then appends to the derived frame "
+              "and to the original and probes of both (frames of 0..2 rows in every container kind)")
     label += ("; sessions: every sequence of 2..%d creations from {tuples-only row class (a,b), ordinary row class (a,b), ordinary row class (b,a), list-backed frame (a,b), "
               "tuple-backed frame (a,b), list-backed frame (b,a)} followed by probe actions on every object (dicts reordered / with a foreign key / with a missing field, a tuple; for frames "
               "append(dict), append(tuple), collect with the returned array overwritten, df[...], rowcount) in creation order and in reverse order" % (4 if tier == "thorough" else 3))
@@ -2219,13 +2372,15 @@ def _rand_fop(rng, r, w, names, pos, reqs=None):
                                       ["i", r + 1], ["i", r + 5], ["i", INT_MAX], ["i", rng.choice(_BIG_LIMITS)]])
         if rng.random() < 0.3:
             op["scribble"] = True
+        if rng.random() < 0.25:
+            op["kw"] = True
         if reqs is not None and isinstance(cols, list) and cols:
             op["req"] = len(reqs)
             reqs.append((len(reqs), list(cols)))
         return op
     if q < 0.6:
         c = rng.randrange(w)
-        op = {"op": "getitem", "cols": rng.choice([c, names[c], [names[c]], [c, rng.randrange(w)], list(range(w))])}
+        op = {"op": "getitem", "cols": rng.choice([c, names[c], [names[c]], [c, rng.randrange(w)], list(range(w)), -1, -w, c - w, w, [-1], {"v": rng.choice(_ODD_COLS)}])}
         if rng.random() < 0.3:
             op["scribble"] = True
         return op
@@ -2241,6 +2396,8 @@ def _rand_dfseq(rng):
     r = rng.choice([0, 1, 2, 3, 3, 5, 8])
     w = rng.choice([1, 2, 3, 4])
     names = ["c%d" % i for i in range(w)]
+    if w > 1 and rng.random() < 0.15:
+        names[rng.randrange(1, w)] = names[0]     # a repeated column name: a name resolves to the first column carrying it
     rows = _rand_rows(rng, r, w, distinct=rng.random() < 0.6)
     reqs = []
     ops = [_rand_fop(rng, r, w, names, pos, reqs) for pos in range(rng.randint(1, 6))]
@@ -2261,6 +2418,16 @@ def _rand_sess(rng):
     ops, objs, reqs = [], [], []
     total = rng.randint(4, 12)
     for pos in range(total):
+        frames = [j for j, o in enumerate(objs) if o["new"] == "frame"]
+        if frames and len(objs) < 4 and rng.random() < 0.12:
+            j = rng.choice(frames)
+            if objs[j]["backing"] in ("list", "tuple", "deque") and rng.random() < 0.5:
+                new = {"new": "copy", "of": j}
+            else:
+                new = {"new": "head", "of": j, "n": rng.randint(0, 4)}
+            objs.append(dict(objs[j], derived=True))
+            ops.append(new)
+            continue
         if not objs or (len(objs) < 4 and rng.random() < 0.3):
             names = list(_SESS_POOL)
             rng.shuffle(names)
@@ -2440,6 +2607,8 @@ def corpus():
                "ops": [{"op": "collect", "cols": ["b", 0], "limit": ["i", 1]}, {"op": "collect", "cols": ["b", 0]}, {"op": "getitem", "cols": "a"}, {"op": "rowcount"}]}
     yield {"k": "dfseq", "backing": "tuple", "rows": ["l", [t12, t34]], "names": ["a", "b"],      # append refused while lazy, accepted once a list
            "ops": [{"op": "append", "entry": ["t", [["i", 7], ["i", 8]]]}, {"op": "len"}, {"op": "append", "entry": ["l", [["i", 9], ["i", 10]]]}, {"op": "getitem", "cols": ["b"]}]}
+    yield {"k": "md", "via": "ascii", "rows": ["l", [["t", [["i", 1], ["s", "a considerably longer value"]]], ["t", [["i", 22], ["s", "b"]]]]], "names": ["id", "id"]}
+    yield {"k": "dfseq", "backing": "list", "rows": ["l", [t12, t34]], "names": ["a", "b"], "ops": [{"op": "getitem", "cols": -1}, {"op": "collect", "cols": -1}, {"op": "getitem", "cols": -2}]}
     yield {"k": "md", "rows": ["l", [["t", [["i", 1], ["b", False]]], ["t", [["i", 2], ["n"]]]]], "names": ["id", "ok"]}       # the widest non-null value is falsy
     yield {"k": "sess", "ops": [{"new": "frame", "backing": "list", "rows": ["l", [t12]], "names": ["a", "b"]},            # one request list, two frames laid out differently
                                 {"new": "frame", "backing": "list", "rows": ["l", [t34]], "names": ["b", "a"]},
@@ -2548,11 +2717,17 @@ def shrink(case):
                     yield dict(case, ops=ops[:i] + ops[i + 1:])
                 continue
             oi = sum(1 for q in ops[:i] if "new" in q)   # drop object oi together with the actions on it; renumber the rest
+            if any(q.get("of") == oi for q in ops):
+                continue   # something is derived from it
             out = []
             for j, q in enumerate(ops):
                 if j == i or ("on" in q and q["on"] == oi):
                     continue
-                out.append(dict(q, on=q["on"] - 1) if "on" in q and q["on"] > oi else q)
+                if "on" in q and q["on"] > oi:
+                    q = dict(q, on=q["on"] - 1)
+                if "of" in q and q["of"] > oi:
+                    q = dict(q, of=q["of"] - 1)
+                out.append(q)
             if out:
                 yield dict(case, ops=out)
         for i, q in enumerate(ops):
